@@ -440,5 +440,11 @@ def main(run):
     try:
         run(ctx)
     except Inconclusive as e:
+        # a violation already observed on the real code stays a violation when a later part of the
+        # check (a vacuity condition, a model run) could not be completed
+        known, _fixed = load_known(prop)
+        if any(v["signature"] not in known for v in ctx.violations):
+            print("NOTE property=%s: the check did not complete (%s); reporting what was observed before" % (prop, e))
+            finish(ctx, "model_checking", {"states": 0, "transitions": 0, "incomplete": str(e)}, [])
         print("INCONCLUSIVE property=%s: %s" % (prop, e))
         sys.exit(2)
